@@ -894,12 +894,12 @@ for source in its: 0..the_graph.number_of_nodes()
                     rg.wf_rows(),
                     num_nodes == rg.n(),
                     closeness_map_ok(rg, weighted, wf_improved, its.index@ as int, centralities@),
-//@ after #1 let cc = get_node_centrality(&shortest_paths, num_nodes, wf_improved);
+//@ before #1 let node_name = the_graph.get_node_by_index(&source).unwrap().name.clone();
                     proof {
                         assert(kernel_out(*the_graph, weighted, source, shortest_paths@));
                         assert(entry_ok(*the_graph, weighted, wf_improved, source, cc));
                     }
-//@ after #2 let cc = get_node_centrality(&shortest_paths, num_nodes, wf_improved);
+//@ before #2 let node_name = the_graph.get_node_by_index(&source).unwrap().name.clone();
                 proof {
                     assert(kernel_out(rg, weighted, source, shortest_paths@));
                     assert(entry_ok(rg, weighted, wf_improved, source, cc));
